@@ -643,10 +643,22 @@ fn apply_proj(pattern_str: &str) -> impl Applier<Expr, ExprAnalysis> {
             for &child in &self.children {
                 // filter out unused columns from child's schema
                 let child_id = subst[child];
-                let filtered = produced(egraph, child_id)
-                    .filter(|col| used.contains(col))
+                // An output is selected by its name and listed the way the child lists it: a key
+                // `(ref a)` of an aggregation is named `a`, but only `(ref a)` is in its schema.
+                let schema = egraph[child_id].data.schema.clone();
+                let filtered = (schema.into_iter())
+                    .filter(|id| used.contains(&name_of(egraph, *id)))
                     .collect_vec();
-                let filtered_ids = filtered.into_iter().map(|col| egraph.add(col)).collect();
+                let filtered_ids = (filtered.into_iter())
+                    .map(|id| {
+                        let passed_as_is = (egraph[id].iter())
+                            .any(|e| matches!(e, Expr::Column(_) | Expr::Ref(_)));
+                        match passed_as_is {
+                            true => egraph.find(id),
+                            false => egraph.add(Expr::Ref(id)),
+                        }
+                    })
+                    .collect();
                 let id = egraph.add(Expr::List(filtered_ids));
                 let id = egraph.add(Expr::Proj([id, child_id]));
                 subst.insert(child, id);
